@@ -280,6 +280,7 @@ pub fn make_case(prop: &str, seed: u64) -> Case {
             };
             if prop == "C09" {
                 mix.unauth = 6;
+                case.gen.revocation_chance = *rng.pick(&[0.0, 0.5, 0.8]);
             }
             perturb(&mut rng, &mut mix);
             mix.users = mix.users.max(30);
